@@ -155,11 +155,11 @@ pub struct Cycle {
 impl Cycle {
     /// Creates a new [Cycle] adaptor
     pub fn new(iter: KIterator) -> Self {
-        let (lower_bound, _) = iter.size_hint();
-        let size_hint = if lower_bound < usize::MAX {
-            lower_bound
-        } else {
-            0
+        // Only reserve space for the cache when the incoming iterator is known to be finite,
+        // adaptors of infinite iterators can report lower bounds like `usize::MAX - 1`.
+        let size_hint = match iter.size_hint() {
+            (lower_bound, Some(_)) => lower_bound,
+            _ => 0,
         };
 
         Self {
